@@ -240,6 +240,8 @@ def decl_table(mod):
     D, ini = {}, {}
     for p in mod["ports"]:
         D[p["n"]] = {"w": p["h"] - p["l"] + 1 if p["h"] >= 0 else 1, "s": p["s"]}
+        if "init" in p:
+            ini[p["n"]] = p["init"]
     for it in mod["items"]:
         if it["k"] == "decl":
             D[it["n"]] = {"w": it["h"] - it["l"] + 1 if it["h"] >= 0 else 1, "s": it["s"]}
@@ -803,7 +805,7 @@ def build_trace(build, stim_seed, cycles, regular_comb=True, label=None, reset_m
         ev.append({"r": rising, "v": dv, "m": dm})
     pini = {}
     for prt in mod["ports"]:
-        if prt["dir"] == "output" and prt["t"] == "reg":
+        if prt["dir"] == "output" and prt["t"] == "reg" and "init" not in prt:
             for s_, n_ in name_a.items():
                 if n_ == prt["n"] and s_.reset.value != 0:
                     pini[n_] = s_.reset.value
